@@ -29,9 +29,16 @@ def _strip_comments(src):
 class Lean:
     """build, audit and drive the Lean model"""
     _built = None
+    partial_build = []
+    build_errors = ''
+    translation = {}
 
     @staticmethod
-    def build(timeout=3000):
+    def build(pid=None, timeout=3000):
+        """regenerate the generated parts of the model from the current source (tables by probing, Source.lean by
+        translation), then build.  If the whole library does not build, build only what property `pid` needs (the
+        driver and its own property modules): a property whose modules still compile is not affected by a proof that
+        broke elsewhere."""
         if Lean._built is not None:
             return Lean._built
         os.makedirs(os.path.join(LEAN, '.lake'), exist_ok=True)
@@ -43,11 +50,34 @@ class Lean:
         except Exception as e:      # translator failure is reported as a broken tie, not a crash
             Lean._built = (False, 'extract_tables failed: ' + ''.join(traceback.format_exception_only(type(e), e)))
             return Lean._built
+        try:
+            from harness import pytolean
+            Lean.translation = pytolean.write_if_changed()
+        except Exception as e:
+            Lean._built = (False, 'pytolean failed: ' + ''.join(traceback.format_exception_only(type(e), e)))
+            return Lean._built
         with open(os.path.join(LEAN, '.lake', 'verif.lock'), 'w') as lk:
             fcntl.flock(lk, fcntl.LOCK_EX)
             try:
                 p = subprocess.run(['lake', 'build'], cwd=LEAN, capture_output=True, text=True, timeout=timeout)
                 ok, log = p.returncode == 0, (p.stdout + p.stderr)[-6000:]
+                if not ok and pid is not None:
+                    mods = sorted({o['module'] for o in Lean.obligations(pid)})
+                    failed = sorted(set(re.findall(r'^- (Kingdon[\w\.]*)', p.stdout + p.stderr, re.M)))
+                    p2 = subprocess.run(['lake', 'build', 'Kingdon.Driver'] + mods, cwd=LEAN, capture_output=True, text=True, timeout=timeout)
+                    if p2.returncode == 0:
+                        ok, log = True, 'modules outside this property failed to build: ' + ', '.join(failed)
+                        Lean.partial_build = failed
+                    else:
+                        # the driver alone?  (then the correspondence can still run; the obligations are reported broken by the audit)
+                        p3 = subprocess.run(['lake', 'build', 'Kingdon.Driver'], cwd=LEAN, capture_output=True, text=True, timeout=timeout)
+                        failed2 = sorted(set(re.findall(r'^- (Kingdon[\w\.]*)', p2.stdout + p2.stderr, re.M)))
+                        if p3.returncode == 0:
+                            ok, log = True, 'property modules failed to build: ' + ', '.join(failed2)
+                            Lean.partial_build = failed2
+                            Lean.build_errors = (p2.stdout + p2.stderr)[-3000:]
+                        else:
+                            log = (p2.stdout + p2.stderr)[-6000:]
             except subprocess.TimeoutExpired:
                 ok, log = False, 'lake build timed out'
         Lean._built = (ok, log)
@@ -68,17 +98,41 @@ class Lean:
         mods = sorted({o['module'] for o in obs})
         d = os.path.join(LEAN, '.lake', 'audit')
         os.makedirs(d, exist_ok=True)
-        path = os.path.join(d, f'Audit_{pid}.lean')
-        with open(path, 'w') as f:
-            for m in mods:
+        # one audit file per module: a module that no longer compiles does not hide the theorems of the others
+        def one(m):
+            path = os.path.join(d, f'Audit_{pid}_{m.split(".")[-1]}_{os.getpid()}.lean')
+            with open(path, 'w') as f:
                 f.write(f'import {m}\n')
-            for o in obs:
-                f.write(f'#print axioms {o["name"]}\n')
-        p = subprocess.run(['lake', 'env', 'lean', path], cwd=LEAN, capture_output=True, text=True, timeout=900)
-        out = p.stdout + p.stderr
+                for o in obs:
+                    if o['module'] == m:
+                        f.write(f'#print axioms {o["name"]}\n')
+            p = subprocess.run(['lake', 'env', 'lean', path], cwd=LEAN, capture_output=True, text=True, timeout=900)
+            try:
+                os.remove(path)
+            except OSError:
+                pass
+            return p.stdout + p.stderr
+        # a module counts only if lake says it is up to date with its sources now (a stale .olean proves nothing)
+        fresh = {}
+        if Lean.partial_build:
+            with open(os.path.join(LEAN, '.lake', 'verif.lock'), 'w') as lk:
+                fcntl.flock(lk, fcntl.LOCK_EX)
+                for m in mods:
+                    p = subprocess.run(['lake', 'build', m], cwd=LEAN, capture_output=True, text=True, timeout=3000)
+                    fresh[m] = (p.returncode == 0, (p.stdout + p.stderr)[-1200:])
+        else:
+            fresh = {m: (True, '') for m in mods}
+        from concurrent.futures import ThreadPoolExecutor
+        with ThreadPoolExecutor(max_workers=6) as ex:
+            good = [m for m in mods if fresh[m][0]]
+            outs = dict(zip(good, ex.map(one, good)))
+        for m in mods:
+            if not fresh[m][0]:
+                outs[m] = 'MODULE DOES NOT BUILD: ' + fresh[m][1]
         res = []
         for o in obs:
             nm = o['name']
+            out = outs[o['module']]
             short = nm
             m = re.search(r"'" + re.escape(short) + r"' depends on axioms: \[([^\]]*)\]", out, re.S)
             m0 = re.search(r"'" + re.escape(short) + r"' does not depend on any axioms", out)
@@ -178,7 +232,7 @@ class Ctx:
 
     # ---- lean -----------------------------------------------------------------------------
     def lean_prepare(self):
-        ok, log = Lean.build()
+        ok, log = Lean.build(self.pid)
         if not ok:
             self.model_ok = False
             self.broken.append({'what': 'lake build failed', 'detail': log[-1500:]})
